@@ -72,7 +72,9 @@ def restore():
     for name, fn in _orig.items():
         if name != "done":
             setattr(h, name, fn)
-    h.int = lambda x: x if isinstance(x, sx.SymInt) else int(x)
+    from symx import shims
+    h.int = shims.INT
+    h.math = shims.INT_MATH
     return h
 
 
